@@ -245,6 +245,15 @@ Real mk(const z3::expr& e0, uint8_t sign, int sq = 0)
         if (v.is_numeral())
             e = v;
     }
+    if (e.is_numeral() && g_concrete)
+    {
+        // concrete replay: exact rational constants become native doubles, so that every later operation (sqrt of a
+        // non-square rational, comparisons) is ordinary double arithmetic instead of a symbolic decision
+        Real r;
+        r.c = e.as_double();
+        r.id = 0;
+        return r;
+    }
     if (e.is_numeral())
         sign = sign_of_numeral(e);
     P->terms.push_back(e);
